@@ -119,6 +119,8 @@ class Class:
         if self._bases is None:
             out = []
             for b in self.node.bases:
+                if isinstance(b, ast.Subscript):
+                    b = b.value  # Base[TypeArgument]: the type argument has no run-time meaning
                 try:
                     v = self.interp.eval_in_module(b, self.module)
                 except Unsupported:
